@@ -216,6 +216,13 @@ def run_property(prop, tier, report):
         cf, cs = decl.c01_findings(tier)
         report.add_findings(cf, "declcheck-encode")
         cov["components_instantiated_and_encoded"] = cs["components"]
+    if prop == "C03":
+        # ... and, nothing being wired, it imports exactly what the component imports (same types,
+        # resources by identity) and exports nothing
+        from . import decl
+        cf, cs = decl.c01_findings(tier, "c03_")
+        report.add_findings([dict(f, **{"class": "interface"}) for f in cf], "declcheck-interface")
+        cov["components_whose_imports_were_compared"] = cs["components"]
     cov["random_traces"] = tsum
     cov["samples"] = samples
     cov["states"] = total_states
